@@ -506,3 +506,314 @@ Qed.
 
 Lemma CP_next_empty : forall c, prime c = [] -> next_run c = 1%Z.
 Proof. intros c H. unfold next_run. now rewrite H. Qed.
+
+(* ===== I. the catalogue invariant ============================================ *)
+
+Definition tshape (x : tab) (i : idx) : Prop :=
+  match x with
+  | Ttarget | Ttask => Forall plain i
+  | _ => forall nm, In nm i -> exists n p v, plain n /\ nm = construct n (Some p) (Some v)
+  end.
+
+Definition Iwf (c : cat) : Prop :=
+  forall x, I_tab (tb c x) (ix c x) /\ tshape x (ix c x).
+
+Definition ext (c c' : cat) : Prop := forall y, exists l, ix c' y = ix c y ++ l.
+
+Lemma CP_ext_refl : forall c, ext c c.
+Proof. intros c y. exists []. now rewrite app_nil_r. Qed.
+
+Lemma CP_ext_trans : forall a b c, ext a b -> ext b c -> ext a c.
+Proof.
+  intros a b c H1 H2 y. destruct (H1 y) as [l1 E1], (H2 y) as [l2 E2].
+  exists (l1 ++ l2). now rewrite E2, E1, app_assoc.
+Qed.
+
+Lemma CP_ext_nth : forall c c' y x nm,
+  ext c c' -> nth_error (ix c y) x = Some nm -> nth_error (ix c' y) x = Some nm.
+Proof.
+  intros c c' y x nm H Hn. destruct (H y) as [l ->].
+  rewrite nth_error_app1; [exact Hn|]. apply nth_error_Some. congruence.
+Qed.
+
+Lemma CP_ext_len : forall c c' y, ext c c' -> length (ix c y) <= length (ix c' y).
+Proof. intros c c' y H. destruct (H y) as [l ->]. rewrite app_length. lia. Qed.
+
+Definition chained (c : cat) (key : pkey) : Prop :=
+  let '(_, t, k, a, s, v) := key in
+  t < length (ix c Ttarget) /\ k < length (ix c Ttask) /\
+  (exists an av, nth_error (ix c Talg) a = Some (construct an (Some k) (Some av))) /\
+  (exists sn sv, nth_error (ix c Tstate) s = Some (construct sn (Some a) (Some sv))) /\
+  (exists vn vv, nth_error (ix c Tvalue) v = Some (construct vn (Some s) (Some vv))).
+
+Lemma CP_chained_ext : forall c c' key, ext c c' -> chained c key -> chained c' key.
+Proof.
+  intros c c' [[[[[r t] k] a] s] v] H (H1 & H2 & (an & av & H3) & (sn & sv & H4) & (vn & vv & H5)).
+  repeat split.
+  - pose proof (CP_ext_len _ _ Ttarget H). lia.
+  - pose proof (CP_ext_len _ _ Ttask H). lia.
+  - exists an, av. eapply CP_ext_nth; eauto.
+  - exists sn, sv. eapply CP_ext_nth; eauto.
+  - exists vn, vv. eapply CP_ext_nth; eauto.
+Qed.
+
+Definition Icat (c : cat) : Prop :=
+  Iwf c /\ NoDup (map fst (prime c)) /\
+  forall k b, In (k, b) (prime c) -> chained c k.
+
+Lemma CP_Icat0 : Icat cat0.
+Proof.
+  split; [|split].
+  - intros x. split; [destruct x; apply CP_tab0|]. destruct x; cbn; try constructor; tauto.
+  - constructor.
+  - intros k b [].
+Qed.
+
+Lemma CP_tb_set_same : forall c x t i, tb (set_tab c x t i) x = t /\ ix (set_tab c x t i) x = i.
+Proof. intros c x t i. destruct x; auto. Qed.
+
+Lemma CP_tb_set_other : forall c x y t i, x <> y ->
+  tb (set_tab c x t i) y = tb c y /\ ix (set_tab c x t i) y = ix c y.
+Proof. intros c x y t i H. destruct x, y; try congruence; auto. Qed.
+
+Lemma SP_prime_set_tab_c : forall c x t i, prime (set_tab c x t i) = prime c.
+Proof. intros c x t i; destruct x; reflexivity. Qed.
+
+Definition okargs (x : tab) (n : name) (p : option nat) (v : option ver) : Prop :=
+  plain n /\
+  match x with
+  | Ttarget | Ttask => p = None /\ v = None
+  | _ => exists p' v', p = Some p' /\ v = Some v'
+  end.
+
+Lemma tab_eq_dec : forall x y : tab, {x = y} + {x <> y}.
+Proof. decide equality. Qed.
+
+Lemma CP_cat_append : forall c x n p v c' id,
+  Iwf c -> okargs x n p v -> cat_append c x n p v = (c', id) ->
+  Iwf c' /\ prime c' = prime c /\ ext c c' /\
+  nth_error (ix c' x) id = Some (construct n p v) /\
+  alookup (construct n p v) (tb c' x) = Some id /\
+  (forall y, y <> x -> tb c' y = tb c y /\ ix c' y = ix c y).
+Proof.
+  intros c x n p v c' id Hw [Hpl Hok] H. unfold cat_append in H.
+  destruct (append n (tb c x) (ix c x) p v) as [[[t i] id0] nm] eqn:E.
+  injection H as <- <-.
+  destruct (Hw x) as [Hi Hs].
+  destruct (CP_append _ _ _ _ _ _ _ _ _ Hi E) as (Hi' & [l Hl] & -> & Hn & Hlk).
+  destruct (CP_tb_set_same c x t i) as [Et Ei].
+  split; [|split; [|split; [|split; [|split]]]].
+  - intros y. destruct (tab_eq_dec x y) as [<-|Hne].
+    + rewrite Et, Ei. split; [exact Hi'|].
+      assert (Hin : forall nm, In nm i -> In nm (ix c x) \/ nm = construct n p v).
+      { intros nm. rewrite Hl. unfold append in E.
+        destruct (alookup (construct n p v) (tb c x));
+          apply (f_equal (fun q => snd (fst (fst q)))) in E; cbn in E.
+        - rewrite Hl in E. intros H. left. rewrite E. exact H.
+        - rewrite Hl in E. apply app_inv_head in E. subst l.
+          rewrite in_app_iff. cbn. intuition. }
+      destruct x; cbn in Hs, Hok |- *.
+      * apply Forall_forall. intros nm Hnm. destruct (Hin _ Hnm) as [H| ->].
+        -- rewrite Forall_forall in Hs. auto.
+        -- destruct Hok as [-> ->]. exact Hpl.
+      * apply Forall_forall. intros nm Hnm. destruct (Hin _ Hnm) as [H| ->].
+        -- rewrite Forall_forall in Hs. auto.
+        -- destruct Hok as [-> ->]. exact Hpl.
+      * intros nm Hnm. destruct (Hin _ Hnm) as [H| ->]; [auto|].
+        destruct Hok as (p' & v' & -> & ->). exists n, p', v'. auto.
+      * intros nm Hnm. destruct (Hin _ Hnm) as [H| ->]; [auto|].
+        destruct Hok as (p' & v' & -> & ->). exists n, p', v'. auto.
+      * intros nm Hnm. destruct (Hin _ Hnm) as [H| ->]; [auto|].
+        destruct Hok as (p' & v' & -> & ->). exists n, p', v'. auto.
+    + destruct (CP_tb_set_other c x y t i Hne) as [-> ->]. apply Hw.
+  - apply SP_prime_set_tab_c.
+  - intros y. destruct (tab_eq_dec x y) as [<-|Hne].
+    + rewrite Ei. eauto.
+    + destruct (CP_tb_set_other c x y t i Hne) as [_ ->]. exists []. now rewrite app_nil_r.
+  - now rewrite Ei.
+  - now rewrite Et.
+  - intros y Hne. apply CP_tb_set_other. congruence.
+Qed.
+
+(* ===== J. remove() addresses exactly the entries with the given names ========= *)
+
+Lemma CP_pkey_eqb_eq : forall a b, pkey_eqb a b = true <-> a = b.
+Proof.
+  intros [[[[[r t] k] a] s] v] [[[[[r' t'] k'] a'] s'] v']. cbn.
+  rewrite !andb_true_iff, Z.eqb_eq, !Nat.eqb_eq. split.
+  - intros [[[[[-> ->] ->] ->] ->] ->]. reflexivity.
+  - intros [= -> -> -> -> -> ->]. auto 10.
+Qed.
+
+Lemma CP_pdel_keys : forall k p x, In x (map fst (pdel k p)) -> In x (map fst p).
+Proof.
+  intros k p x. induction p as [|[k' b'] p IH]; cbn; [tauto|].
+  destruct (pkey_eqb k k'); cbn; intuition.
+Qed.
+
+Lemma CP_pdel_spec : forall k p, NoDup (map fst p) ->
+  NoDup (map fst (pdel k p)) /\
+  forall e, In e (pdel k p) <-> In e p /\ fst e <> k.
+Proof.
+  intros k p. induction p as [|[k' b'] p IH]; cbn; intros Hnd.
+  - split; [constructor|]. tauto.
+  - inversion Hnd as [|? ? Hk Hnd']; subst. destruct (IH Hnd') as [IH1 IH2].
+    destruct (pkey_eqb k k') eqn:E.
+    + apply CP_pkey_eqb_eq in E. subst k'. split; [exact Hnd'|].
+      intros [k0 b0]. cbn. split.
+      * intros Hin. split; [now right|]. intros ->. apply Hk.
+        apply in_map_iff. exists (k, b0). auto.
+      * intros [[[= <- <-]|Hin] Hne]; [congruence|exact Hin].
+    + assert (k <> k') as Hne by (intros ->; rewrite (proj2 (CP_pkey_eqb_eq k' k') eq_refl) in E; discriminate).
+      split.
+      * cbn. constructor; [|exact IH1]. intros Hin. apply Hk. eapply CP_pdel_keys; eauto.
+      * intros e. cbn. rewrite IH2. split.
+        -- intros [<-|[H1 H2]]; [split; [now left|cbn; congruence]|split; [now right|exact H2]].
+        -- intros [[<-|H1] H2]; [now left|right; auto].
+Qed.
+
+(* a loop whose body only deletes *)
+Lemma CP_fold_del : forall (A : Type) (f : ptbl -> A -> ptbl) (P : A -> pkey -> Prop),
+  (forall p x, NoDup (map fst p) ->
+     NoDup (map fst (f p x)) /\ forall e, In e (f p x) <-> In e p /\ ~ P x (fst e)) ->
+  forall l p, NoDup (map fst p) ->
+    NoDup (map fst (fold_left f l p)) /\
+    forall e, In e (fold_left f l p) <-> In e p /\ ~ exists x, In x l /\ P x (fst e).
+Proof.
+  intros A f P Hf. induction l as [|x l IH]; intros p Hnd; cbn.
+  - split; [exact Hnd|]. intros e. split; [intros H; split; [exact H|]|tauto].
+    intros [x [[] _]].
+  - destruct (Hf p x Hnd) as [H1 H2]. destruct (IH _ H1) as [H3 H4]. split; [exact H3|].
+    intros e. rewrite H4, H2. split.
+    + intros [[Hin Hnp] Hnl]. split; [exact Hin|]. intros [y [[<-|Hy] Hp]]; [tauto|].
+      apply Hnl. eauto.
+    + intros [Hin Hn]. split; [split; [exact Hin|]|].
+      * intros Hp. apply Hn. exists x. split; [now left|exact Hp].
+      * intros [y [Hy Hp]]. apply Hn. exists y. split; [now right|exact Hp].
+Qed.
+
+Definition has_names (c : cat) (key : pkey) (tn taskn algn svn vn : name) : Prop :=
+  let '(_, t, k, a, s, v) := key in
+  nth_error (ix c Ttarget) t = Some tn /\ nth_error (ix c Ttask) k = Some taskn /\
+  (exists av, nth_error (ix c Talg) a = Some (construct algn (Some k) (Some av))) /\
+  (exists sv, nth_error (ix c Tstate) s = Some (construct svn (Some a) (Some sv))) /\
+  (exists vv, nth_error (ix c Tvalue) v = Some (construct vn (Some s) (Some vv))).
+
+Lemma CP_shaped_tab : forall c x, Iwf c -> x <> Ttarget -> x <> Ttask -> shaped (tb c x).
+Proof.
+  intros c x Hw H1 H2 k y Hin. destruct (Hw x) as [Hi Hs].
+  assert (In k (ix c x)).
+  { apply (CP_in_lookup _ _ _ _ Hi) in Hin. apply (CP_lookup_index _ _ _ _ Hi) in Hin.
+    eapply nth_error_In; eauto. }
+  destruct x; try congruence; cbn in Hs; auto.
+Qed.
+
+(* ids selected by subset on a well-formed table *)
+Lemma CP_subset_ids : forall c x n ps id,
+  Iwf c -> x <> Ttarget -> x <> Ttask -> plain n -> ps <> [] ->
+  (In id (map snd (subset (tb c x) n ps))
+   <-> exists p v, In p ps /\ nth_error (ix c x) id = Some (construct n (Some p) (Some v))).
+Proof.
+  intros c x n ps id Hw H1 H2 Hn Hne. destruct (Hw x) as [Hi _].
+  pose proof (CP_functional_tab _ _ Hi) as Hf.
+  pose proof (CP_shaped_tab c x Hw H1 H2) as Hs.
+  rewrite in_map_iff. split.
+  - intros [[k y] [<- Hin]]. cbn.
+    apply CP_subset_exact in Hin; auto. destruct Hin as [Hin (p & v & Hp & ->)].
+    exists p, v. split; [exact Hp|].
+    apply (CP_lookup_index _ _ _ _ Hi). now apply (CP_in_lookup _ _ _ _ Hi).
+  - intros (p & v & Hp & Hnth). exists (construct n (Some p) (Some v), id). split; [reflexivity|].
+    apply CP_subset_exact; auto. split; [|eauto].
+    apply (CP_in_lookup _ _ _ _ Hi). now apply (CP_lookup_index _ _ _ _ Hi).
+Qed.
+
+Lemma CP_nth_inj : forall (i : idx) a b nm, NoDup i ->
+  nth_error i a = Some nm -> nth_error i b = Some nm -> a = b.
+Proof.
+  intros i a b nm Hnd Ha Hb. eapply NoDup_nth_error; eauto.
+  - apply nth_error_Some. congruence.
+  - congruence.
+Qed.
+
+Theorem CP_remove_exact : forall c r tn taskn algn svn vn c',
+  Icat c -> plain algn -> plain svn -> plain vn ->
+  remove c r tn taskn algn svn vn = Some c' ->
+  (forall x, tb c' x = tb c x /\ ix c' x = ix c x) /\
+  NoDup (map fst (prime c')) /\
+  forall key b, In (key, b) (prime c')
+    <-> In (key, b) (prime c) /\
+        ~ (pk_run key = r /\ has_names c key tn taskn algn svn vn).
+Proof.
+  intros c r tn taskn algn svn vn c' (Hw & Hnd & Hch) Ha Hs Hv H.
+  unfold remove in H.
+  destruct (alookup tn (t_target c)) as [tnid|] eqn:Etn; [|discriminate].
+  destruct (alookup taskn (t_task c)) as [tskid|] eqn:Etk; [|discriminate].
+  set (algids := map snd (subset (t_alg c) algn [tskid])) in H.
+  set (svids := map snd (subset (t_state c) svn algids)) in H.
+  set (vids := map snd (subset (t_value c) vn svids)) in H.
+  injection H as <-.
+  split; [intros x; destruct x; auto|].
+  unfold set_prime. cbv beta iota delta [prime].
+  (* the three nested loops *)
+  pose (P3 := fun (a s v : nat) (k : pkey) => k = (r, tnid, tskid, a, s, v)).
+  pose (P2 := fun (a s : nat) (k : pkey) => exists v, In v vids /\ P3 a s v k).
+  pose (P1 := fun (a : nat) (k : pkey) => exists s, In s svids /\ P2 a s k).
+  assert (L3 : forall a s p, NoDup (map fst p) ->
+    NoDup (map fst (fold_left (fun p vid => pdel (r, tnid, tskid, a, s, vid) p) vids p)) /\
+    forall e, In e (fold_left (fun p vid => pdel (r, tnid, tskid, a, s, vid) p) vids p)
+              <-> In e p /\ ~ P2 a s (fst e)).
+  { intros a s. apply (CP_fold_del nat (fun p vid => pdel (r, tnid, tskid, a, s, vid) p) (P3 a s)).
+    intros p v Hp. destruct (CP_pdel_spec (r, tnid, tskid, a, s, v) p Hp) as [H1 H2].
+    split; [exact H1|]. intros e. rewrite H2. unfold P3. tauto. }
+  assert (L2 : forall a p, NoDup (map fst p) ->
+    NoDup (map fst (fold_left (fun p svid =>
+        fold_left (fun p vid => pdel (r, tnid, tskid, a, svid, vid) p) vids p) svids p)) /\
+    forall e, In e (fold_left (fun p svid =>
+        fold_left (fun p vid => pdel (r, tnid, tskid, a, svid, vid) p) vids p) svids p)
+              <-> In e p /\ ~ P1 a (fst e)).
+  { intros a. apply (CP_fold_del nat _ (P2 a)). intros p s Hp. apply L3. exact Hp. }
+  destruct (CP_fold_del nat _ P1 (fun p a => L2 a p) algids (prime c) Hnd) as [G1 G2].
+  split; [exact G1|].
+  intros key b. rewrite G2. cbv beta iota delta [fst].
+  assert (Hin_dec : In (key, b) (prime c) ->
+     ((exists a, In a algids /\ P1 a key)
+      <-> pk_run key = r /\ has_names c key tn taskn algn svn vn)); [|tauto].
+  intros Hin. pose proof (Hch _ _ Hin) as Hc.
+  destruct (Hw Ttarget) as [Hit _], (Hw Ttask) as [Hik _].
+  pose proof (proj1 (CP_lookup_index _ _ _ _ Hit) Etn) as Htn.
+  pose proof (proj1 (CP_lookup_index _ _ _ _ Hik) Etk) as Htk.
+  assert (Talg <> Ttarget /\ Talg <> Ttask /\ Tstate <> Ttarget /\ Tstate <> Ttask
+          /\ Tvalue <> Ttarget /\ Tvalue <> Ttask) as (N1 & N2 & N3 & N4 & N5 & N6)
+      by (repeat split; discriminate).
+  split.
+  - intros (a & Hain & s & Hsin & v & Hvin & ->). cbn [pk_run]. split; [reflexivity|].
+    destruct Hc as (_ & _ & (an & av & Hc3) & (sn & sv & Hc4) & (vn' & vv & Hc5)).
+    assert (algids <> []) as NE1 by (intros E; rewrite E in Hain; destruct Hain).
+    assert (svids <> []) as NE2 by (intros E; rewrite E in Hsin; destruct Hsin).
+    apply (CP_subset_ids c Talg algn [tskid] a Hw N1 N2 Ha) in Hain; [|discriminate].
+    destruct Hain as (p & av' & [<-|[]] & Hain).
+    apply (CP_subset_ids c Tstate svn algids s Hw N3 N4 Hs NE1) in Hsin.
+    destruct Hsin as (p & sv' & Hp & Hsin).
+    apply (CP_subset_ids c Tvalue vn svids v Hw N5 N6 Hv NE2) in Hvin.
+    destruct Hvin as (p' & vv' & Hp' & Hvin).
+    cbv beta iota delta [ix] in *. rewrite Hsin in Hc4. injection Hc4 as Hc4.
+    apply CP_construct_inj in Hc4. destruct Hc4 as (_ & -> & _).
+    rewrite Hvin in Hc5. injection Hc5 as Hc5.
+    apply CP_construct_inj in Hc5. destruct Hc5 as (_ & -> & _).
+    repeat split; eauto.
+  - destruct key as [[[[[r' t] k] a] s] v]. cbn [pk_run].
+    intros [-> (H1 & H2 & (av & H3) & (sv & H4) & (vv & H5))].
+    assert (t = tnid) as -> by (eapply CP_nth_inj; [apply Hit| |]; eauto).
+    assert (k = tskid) as -> by (eapply CP_nth_inj; [apply Hik| |]; eauto).
+    assert (Hain : In a algids).
+    { apply (CP_subset_ids c Talg algn [tskid] a Hw N1 N2 Ha); [discriminate|].
+      exists tskid, av. split; [now left|exact H3]. }
+    assert (algids <> []) as NE1 by (intros E; rewrite E in Hain; destruct Hain).
+    assert (Hsin : In s svids).
+    { apply (CP_subset_ids c Tstate svn algids s Hw N3 N4 Hs NE1). eauto. }
+    assert (svids <> []) as NE2 by (intros E; rewrite E in Hsin; destruct Hsin).
+    assert (Hvin : In v vids).
+    { apply (CP_subset_ids c Tvalue vn svids v Hw N5 N6 Hv NE2). eauto. }
+    exists a. split; [exact Hain|]. exists s. split; [exact Hsin|].
+    exists v. split; [exact Hvin|]. reflexivity.
+Qed.
